@@ -5,7 +5,7 @@ Python `int` bitwise operators on Lean `Int` (import-free; core Lean 4.33 has
 Python integers behave as infinite two's-complement bit strings: a negative
 number `-(a+1)` (`Int.negSucc a`) is the bitwise complement of `a`.  The four
 sign cases below are de Morgan on that representation; `andNot a b = a & ~b`
-on naturals is `a - (a &&& b)` (clearing in `a` the bits it shares with `b`).
+on naturals is `a ^^^ (a &&& b)` (clearing in `a` the bits it shares with `b`).
 
 Shifts: `x << k = x * 2^k`, `x >> k = x / 2^k` (`Int` division is Euclidean =
 floor for a positive divisor, like Python's `>>`); a negative count raises
@@ -16,7 +16,7 @@ Facts about these (`and x (2^k-1) = x % 2^k`, single-bit masks, agreement with
 namespace Model.PyInt
 
 /-- `a & ~b` on naturals -/
-def andNot (a b : Nat) : Nat := a - (a &&& b)
+def andNot (a b : Nat) : Nat := a ^^^ (a &&& b)
 
 /-- Python `x & y` -/
 def and : Int → Int → Int
